@@ -121,6 +121,16 @@ class C16(Check):
             res["viol"].append({"kind": v["kind"], "canon": repr(v["hist"]), "msg": v["msg"]})
         return res
 
+    def standalone(self, space_name, payload, viol):
+        import ast as _ast
+
+        try:
+            canon = viol["canon"].split("|")[-1]
+            hist = _ast.literal_eval(canon)
+            return streams.history_code((1, 1), hist)
+        except Exception:
+            return None
+
     def render(self, space_name, payload):
         return repr(payload)
 
